@@ -313,6 +313,10 @@ def check(ctx) -> None:
     rule_o8(ctx)
     rule_o9(ctx)
     rule_o10(ctx)
+    # O11: the benchmark judges each row by that row's similarity (shared pandas label-alignment rule)
+    from . import c06 as _c06
+
+    _c06.rule_index_alignment(ctx, "C17-O11")
     # the normal form may be built by normalize_smiles itself or by a helper it calls (e.g. a memoised per-side helper)
     family = [f]
     for c in calls(f):
